@@ -75,7 +75,7 @@ CHECKS = {
     "C12": dict(
         category="fault_enumeration",
         technique="fault injection driven by Hypothesis: one fault from a ~110-class catalogue at a generated applicable position of a generated valid input; fail-closed predicate on real CLI runs",
-        text="Each case is one real run of rp2_<country> on a valid base input (several flavours: mixed, buy-only, income-only, transfer-heavy) with exactly one documented fault; fault classes are weighted by their number of applicable positions; oracle = non-zero exit AND error text AND no report written. Fault classes hit are listed in the evidence; a sixth of the cases also verify that the fault-free base is accepted. A third of the row / structure / config faults are run with a -f / -t window as well (a fault in a row outside the window is still a fault). Base inputs carry exchange-supplied fiat values (zero price / zero amount faults on such rows are classes of their own); unknown names include configured names padded with white space.",
+        text="Each case is one real run of rp2_<country> on a valid base input (several flavours: mixed, buy-only, income-only, transfer-heavy) with exactly one documented fault; fault classes are weighted by their number of applicable positions; oracle = non-zero exit AND error text AND no report written. Fault classes hit are listed in the evidence; a sixth of the cases also verify that the fault-free base is accepted. A third of the row / structure / config faults are run with a -f / -t window as well (a fault in a row outside the window is still a fault). Base inputs carry exchange-supplied fiat values (zero price / zero amount faults on such rows, and a zero or negative supplied value itself, are classes of their own); unknown names include configured names padded with white space.",
         note="Faults only in data rows; R5/R6 ambiguities are not injected; which message is printed is not asserted.",
         design="DESIGN.md section 4 / C12",
     ),
